@@ -24,10 +24,17 @@ def main() -> int:
     except ModuleNotFoundError:
         log(f"no check for {a.prop}")
         return 2
+    payload = None
+    if a.replay:
+        payload = json.load(open(a.replay))
+        # a replay regenerates the case space of the tier (and seed) that found the rejection
+        if "--tier" not in sys.argv and payload.get("tier") in ("quick", "thorough"):
+            a.tier = payload["tier"]
+        if "seed" in payload and "VERIF_SEED" not in os.environ:
+            os.environ["VERIF_SEED"] = str(payload["seed"])
     chk = Check(a.prop, a.tier)
     try:
         if a.replay:
-            payload = json.load(open(a.replay))
             if hasattr(mod, "replay"):
                 return mod.replay(chk, payload)
             # generic replay: regenerate the case space of the tier that found it and report whether the
